@@ -454,7 +454,9 @@ def main() -> None:
             "import DafRel.Gen.OpsSupport\n", "import DafRel.Gen.OpsSupport\n\nset_option linter.unusedVariables false\n", 1)
 
     for name, gen in (("Kernel", gen_kernel), ("Flags", gen_flags), ("Schema", gen_schema), ("Names", gen_names),
-                      ("Ops", gen_ops_file), ("RelOps", lambda: extract_ops.gen_rel_ops(PROBLEMS))):
+                      ("Ops", gen_ops_file), ("RelOps", lambda: extract_ops.gen_rel_ops(PROBLEMS)),
+                      ("JoinOps", lambda: extract_ops.gen_rel_ops(PROBLEMS, "JoinOps")),
+                      ("SqlOps", lambda: extract_ops.gen_rel_ops(PROBLEMS, "SqlOps"))):
         before = len(PROBLEMS)
         try:
             content = gen()
